@@ -660,9 +660,22 @@ func (conn *Conn) Close() error {
 	}
 	// Drain both in and out channels to avoid a deadlock if the buffers
 	// have filled. See TestSendDeadlockOnFullBuffer in connection_test.go.
-	conn.drainIn()
-	conn.drainOut()
-	conn.wg.Wait()
+	// Keep draining until every goroutine has exited: recv may still be
+	// feeding lines it has buffered, and handlers may still be sending.
+	done := make(chan struct{})
+	go func() {
+		conn.wg.Wait()
+		close(done)
+	}()
+drain:
+	for {
+		select {
+		case <-conn.in:
+		case <-conn.out:
+		case <-done:
+			break drain
+		}
+	}
 	vhook("close.waited", conn)
 	conn.mu.Unlock()
 	vhook("close.unlock", conn)
